@@ -465,7 +465,20 @@ func init() {
 				return
 			}
 			found := 0
-			for _, g := range withAnon(f) {
+			// the closures of Exit, plus named functions of the package that they defer (`defer e.recoverAndRecycle(ctx)`)
+			scope := withNewHelpers(withAnon(f))
+			deferredNamed := map[*ssa.Function]bool{}
+			for _, g := range append([]*ssa.Function{}, scope...) {
+				eachInstr(g, func(ins ssa.Instruction) {
+					if d, ok := ins.(*ssa.Defer); ok {
+						if cal := d.Call.StaticCallee(); cal != nil && cal.Parent() == nil && relPkg(fnPkgPath(cal)) == "core/base" && !deferredNamed[cal] {
+							deferredNamed[cal] = true
+							scope = append(scope, cal)
+						}
+					}
+				})
+			}
+			for _, g := range scope {
 				for _, ci := range callsIn(g) {
 					if !isStaticCallTo(ci, ref) {
 						continue
@@ -487,7 +500,7 @@ func init() {
 						}
 					}
 					// must be in a deferred closure of the Once closure
-					deferred := false
+					deferred := deferredNamed[g]
 					if par := g.Parent(); par != nil {
 						eachInstr(par, func(ins ssa.Instruction) {
 							if d, ok := ins.(*ssa.Defer); ok {
